@@ -136,6 +136,17 @@ fn print_family(dir: &Path, nfiles: usize) -> Vec<PathBuf> {
         std::fs::write(&p, s).unwrap();
         entries.push(p);
     }
+    // one namespace with several hundred items (size thresholds in the generator: chunking, inline capacities)
+    let mut s = String::from("namespace rs fam.big\n\n");
+    for i in 0..330 {
+        s.push_str(&format!("struct Big{} {{ 1: optional i32 a, 2: optional string b }}\n", i));
+        if i % 30 == 0 {
+            s.push_str(&format!("enum BigKind{} {{ P = 0, Q = 1 }}\n", i));
+        }
+    }
+    let p = dir.join("fambig.thrift");
+    std::fs::write(&p, s).unwrap();
+    entries.push(p);
     entries
 }
 
@@ -215,7 +226,8 @@ fn corpora(scratch: &Path, tier_thorough: bool) -> Vec<Corpus> {
     let pfam_dir = scratch.join("pfamily");
     let pfam = print_pfamily(&pfam_dir, if tier_thorough { 4 } else { 3 });
     v.push(Corpus { name: "pfamily_all_entries".into(), source: "protobuf", include: Some(pfam_dir), entries: pfam, modes: vec!["single", "split"] });
-    v.push(Corpus { name: "family_last_entry".into(), source: "thrift", include: Some(fam_dir), entries: vec![fam.last().unwrap().clone()], modes: vec!["single", "workspace"] });
+    v.push(Corpus { name: "family_last_entry".into(), source: "thrift", include: Some(fam_dir), entries: vec![fam[fam.len() - 2].clone()], modes: vec!["single", "workspace"] });
+    v.push(Corpus { name: "family_big_namespace".into(), source: "thrift", include: None, entries: vec![fam.last().unwrap().clone()], modes: vec!["single", "split"] });
     v
 }
 
@@ -376,7 +388,7 @@ fn diff_trees(a: &BTreeMap<String, Vec<u8>>, b: &BTreeMap<String, Vec<u8>>) -> O
 /// Is a formatted run of this (corpus, mode) cheap? Split modes of the large corpora spend
 /// about a minute in rustfmt (one process per file).
 fn fmt_cheap(c: &Corpus, mode: &str) -> bool {
-    !(mode.contains("split") && (c.name.contains("family") || c.name == "repo_thrift_all"))
+    !((mode.contains("split") && (c.name.contains("family") || c.name == "repo_thrift_all")) || c.name == "family_big_namespace")
 }
 
 /// Compare two trees, running the real rustfmt on the files that differ textually.
@@ -513,7 +525,7 @@ fn run(args: &[String]) {
                     0 | 1 => (1, None),
                     // uncontrolled multi-worker runs are for information only: not generated here
                     // tier 2: gate decides the order, pool large enough for every parked job
-                    _ => (96, Some(splitmix(&mut st))),
+                    _ => (256, Some(splitmix(&mut st))),
                 };
                 // a few runs through the real rustfmt, the bulk unformatted (stricter)
                 let fmt = k % 7 == 6;
@@ -521,7 +533,7 @@ fn run(args: &[String]) {
                 // worker counts 1..16 with the gate off are covered by tier 1 only at 1 worker; with the
                 // gate the pool size is irrelevant to the order, vary it as well
                 if tierkind == 3 {
-                    let t = 64 + (splitmix(&mut st) % 64) as u32;
+                    let t = 192 + (splitmix(&mut st) % 64) as u32;
                     jobs.push(RunCfg { corpus: ci, mode: m, hash_seed, threads: t, gate_seed: Some(splitmix(&mut st)), real_rustfmt: false, uncontrolled: false });
                 }
             }
